@@ -46,7 +46,12 @@ func c11Check(r *ev.Run, distinct map[string]bool) func(run *streamRun, x *verif
 			r.Outcome("wrong")
 			r.Violation(sig, fmt.Sprintf("%s [producers %v, schedule of %d points]", what, sc.Producers, len(sched)), rep)
 		}
+		faulted := false
 		for _, e := range x.Events {
+			if e.Kind == "fatal" && sc.WriteFault != nil {
+				faulted = true // a failed write ends the process by design (log.Fatalf): what was written before it is still judged
+				continue
+			}
 			bad("event:"+e.Kind, fmt.Sprintf("%s in %s: %s", e.Kind, e.Thread, clip(e.Detail)))
 			return
 		}
@@ -58,7 +63,7 @@ func c11Check(r *ev.Run, distinct map[string]bool) func(run *streamRun, x *verif
 			parked = fmt.Sprintf("; parked outside the known idle points: %v", st)
 			r.Add("executions_with_threads_parked_elsewhere", 1)
 		}
-		if run.prodDone != len(sc.Producers) {
+		if sc.WriteFault == nil && run.prodDone != len(sc.Producers) {
 			bad("producer-blocked", fmt.Sprintf("only %d of %d producers could submit all their messages%s", run.prodDone, len(sc.Producers), parked))
 			return
 		}
@@ -74,6 +79,9 @@ func c11Check(r *ev.Run, distinct map[string]bool) func(run *streamRun, x *verif
 		for off := 0; off < len(wire); {
 			found := false
 			for pi := range sc.Producers {
+				for next[pi] < len(run.submitted[pi]) && run.submitted[pi][next[pi]] == nil {
+					next[pi]++ // an unencodable message: nothing of it is expected on the wire
+				}
 				if next[pi] < len(run.submitted[pi]) && bytes.HasPrefix(wire[off:], run.submitted[pi][next[pi]]) {
 					off += len(run.submitted[pi][next[pi]])
 					next[pi]++
@@ -84,6 +92,20 @@ func c11Check(r *ev.Run, distinct map[string]bool) func(run *streamRun, x *verif
 			}
 			if found {
 				continue
+			}
+			if sc.WriteFault != nil {
+				// after a faulted write the stream may stop anywhere, but what it did write must be the
+				// beginning of the right frame: the rest of the wire is a proper prefix of a next message
+				cut := false
+				for pi := range sc.Producers {
+					if next[pi] < len(run.submitted[pi]) && bytes.HasPrefix(run.submitted[pi][next[pi]], wire[off:]) {
+						cut = true
+					}
+				}
+				if cut {
+					r.Outcome("write-fault:stopped-inside-a-frame")
+					return
+				}
 			}
 			// what is at this position instead?
 			what := fmt.Sprintf("bytes that are not the next message of any producer (%x...)", head(wire[off:], 12))
@@ -102,11 +124,18 @@ func c11Check(r *ev.Run, distinct map[string]bool) func(run *streamRun, x *verif
 			return
 		}
 		for pi := range sc.Producers {
+			for next[pi] < len(run.submitted[pi]) && run.submitted[pi][next[pi]] == nil {
+				next[pi]++
+			}
+			if sc.WriteFault != nil {
+				continue // the process ended at the failed write: later messages are not owed
+			}
 			if next[pi] != len(run.submitted[pi]) {
 				bad("lost", fmt.Sprintf("message %d of producer %d was never written%s", next[pi], pi, parked))
 				return
 			}
 		}
+		_ = faulted
 		distinct[order] = true
 		if len(sc.Producers) > 1 {
 			r.Outcome("written-in-order:" + fmt.Sprint(len(sc.Producers)) + "-producers")
@@ -161,6 +190,19 @@ func c11Scenarios(thorough bool) []streamScenario {
 		out = append(out, streamScenario{Producers: [][]int{{0, 1, 0, 2}}, ZeroXid: true, AsBuffer: asBuf, FailAfter: -1, Bound: -1, ShutAt: -1},
 			streamScenario{Producers: [][]int{{1, 0}, {2}}, ZeroXid: true, AsBuffer: asBuf, FailAfter: -1, Bound: -1, ShutAt: -1},
 			streamScenario{Producers: [][]int{{0, 0}}, ZeroXid: true, Reuse: true, AsBuffer: asBuf, FailAfter: -1, Bound: -1, ShutAt: -1})
+	}
+	// messages that cannot be encoded, between encodable ones (nobody reads the error channel)
+	for _, body := range [][]int{{0, -1, 1}, {-1, -1, 0}, {0, -1, 1, -1, 2, -1, 0}, {-1}} {
+		out = append(out, streamScenario{Producers: [][]int{body}, FailAfter: -1, Bound: -1, ShutAt: -1})
+	}
+	out = append(out, streamScenario{Producers: [][]int{{-1, 0}, {1, -1, -1, 2}}, FailAfter: -1, Bound: -1, ShutAt: -1})
+	// a write that times out after accepting part of a frame (0, 1, 5, all-but-one bytes), at the
+	// first, second and third write: a failed write ends the process by design; the bytes written
+	// until then must be whole frames followed by the beginning of the right one
+	for at := 0; at < 3; at++ {
+		for _, n := range []int{0, 1, 5, 7, 79} {
+			out = append(out, streamScenario{Producers: [][]int{{0, 1, 0, 1}}, WriteFault: []int{at, n}, FailAfter: -1, Bound: 0, ShutAt: -1})
+		}
 	}
 	// a peer that reads slowly: the writer is held at every write while the producers keep submitting
 	// (40 and 2 x 24 small messages, one producer mixing sizes); default order of that policy plus
@@ -360,7 +402,7 @@ func c11(r *ev.Run, replay string) {
 	r.Set("states", n)
 	r.Set("traces_validated_against_impl", r.Counter("schedules"))
 	r.Set("evaluations", r.Counter("schedules"))
-	lv := "1 producer x 12 bodies; 2 producers x all unordered pairs of the 12 bodies of 1..2 messages over {echo request, flow-mod, 1514-byte packet-out}; 3 producers x all multisets of single messages; the same object (typed value or pre-encoded util.Buffer) submitted two and three times, alone and next to a second producer; messages with transaction id 0: all interleavings of producers, writer and the idle stream goroutines, state-cached, no preemption bound"
+	lv := "1 producer x 12 bodies; 2 producers x all unordered pairs of the 12 bodies of 1..2 messages over {echo request, flow-mod, 1514-byte packet-out}; 3 producers x all multisets of single messages; the same object (typed value or pre-encoded util.Buffer) submitted two and three times, alone and next to a second producer; messages with transaction id 0; messages that cannot be encoded between encodable ones: all interleavings; a write that times out after 0, 1, 5, 7, 79 bytes at the first three writes (default schedule) of producers, writer and the idle stream goroutines, state-cached, no preemption bound"
 	if r.Thorough() {
 		lv += "; 3 producers x 2 messages each"
 	}
